@@ -149,8 +149,6 @@ MUTANTS = [
     ("c18-cutoff-ge", "C18", ABS, "if message_pairing[1].time - message_pairing[0].time > maximum_length:", "if message_pairing[1].time - message_pairing[0].time >= maximum_length:", {"CUT"}),
     ("c18-cutoff-wrong-len", "C18", ABS, "message_pairing[1].time = message_pairing[0].time + reduced_length", "message_pairing[1].time = message_pairing[0].time + maximum_length", {"CUT"}),
     ("c18-wrapper-arg", "C18", SEQ, "self.abs.cutoff(maximum_length=maximum_length, reduced_length=reduced_length)", "self.abs.cutoff(maximum_length=maximum_length, reduced_length=maximum_length)", {"DELEG"}),
-    ("c18-sort-first", "C18", ABS, "        channel_pairings = self.get_message_pairings()\n\n        for message_pairings in channel_pairings.values():\n            for message_pairing in message_pairings:\n                if len(message_pairing) == 1:",
-     "        self.normalise_absolute()\n        channel_pairings = self.get_message_pairings()\n\n        for message_pairings in channel_pairings.values():\n            for message_pairing in message_pairings:\n                if len(message_pairing) == 1:", None),
     ("c18-no-sort", "C18", ABS, "                        message_pairing[1].time = message_pairing[0].time + reduced_length\n\n        self.normalise_absolute()", "                        message_pairing[1].time = message_pairing[0].time + reduced_length", {"SORT"}),
     ("c18-pad-counts-all", "C18", REL, "            if msg.message_type == MessageType.WAIT:\n                current_length += msg.time\n\n                if current_length >= padding_length:", "            if msg.message_type != MessageType.NOTE_ON:\n                current_length += msg.time\n\n                if current_length >= padding_length:", {"MEASURE"}),
     # ---- C19
